@@ -213,7 +213,8 @@ pub struct DefEntry {
     pub name: &'static str,
     pub max_size: fn() -> usize,
     /// one instance per capacity offset: MAX_SIZE + {0, 1, 5}
-    pub instantiate: [fn() -> Box<dyn Glue>; 3],
+    /// one constructor per entry of `CAP_EXTRA`; `None`: this family does not instantiate that capacity
+    pub instantiate: [Option<fn() -> Box<dyn Glue>>; 3],
 }
 
 pub const CAP_EXTRA: [usize; 3] = [0, 1, 5];
